@@ -6,7 +6,7 @@ from hypothesis import strategies as st
 from vf.core import CaseResult, dtype_mode
 
 PROPERTY = "C11"
-RULE = ("NaiveLinear (both inits) / LULinear (both) / QRLinear / SVDLinear (both) / HouseholderSequence x features 1-8 (and 32/64/128) x Householder "
+RULE = ("NaiveLinear (both inits) / LULinear (both) / QRLinear / SVDLinear (both) / HouseholderSequence / OneByOneConvolution (per-pixel W x[perm] + b on 2x2, 1x3, 3x2 images) x features 1-8 (and 32/64/128) x Householder "
         "counts 1..2*features+3 (odd, even, > features; SVD even) x parameter state (fresh; perturbed sigma 0.1-1; reflection "
         "vectors rescaled by 1e-4..1e2; bias != 0) x float64 and float32 x cache on/off. numpy float64 reference: W = weight(); "
         "forward(x) = x W^T + b; inverse(y) = (y-b) W^-T; W weight_inverse() = I; logabsdet() = slogdet(W); the combined "
@@ -25,7 +25,7 @@ def budget(tier):
 
 @st.composite
 def _case(draw):
-    cls = draw(st.sampled_from(["naive", "lu", "qr", "svd", "householder"]))
+    cls = draw(st.sampled_from(["naive", "lu", "qr", "svd", "householder", "naive", "lu", "qr", "svd", "householder", "conv"]))
     f = draw(st.integers(1, 8)) if draw(st.integers(0, 11)) else draw(st.sampled_from([32, 64, 128]))
     nh = draw(st.integers(1, 2 * f + 3)) if f <= 8 else draw(st.sampled_from([1, 4, 9]))
     if cls == "svd":
@@ -61,6 +61,9 @@ def run_case(case):
                 m = T.QRLinear(f, num_householder=case["nh"], using_cache=case["cache"])
             elif cls == "svd":
                 m = T.SVDLinear(f, num_householder=case["nh"], using_cache=case["cache"], identity_init=case["init"])
+            elif cls == "conv":
+                f = min(f, 6)
+                m = T.OneByOneConvolution(f, using_cache=case["cache"], identity_init=case["init"])
             else:
                 m = T.HouseholderSequence(f, case["nh"])
         finally:
@@ -76,7 +79,7 @@ def run_case(case):
             with torch.no_grad():
                 m.eval()
                 m.use_cache(True)
-                x0 = torch.randn(2, f, generator=gen, dtype=torch.float64).to(dtype)
+                x0 = torch.randn([2, f] + ([2, 2] if cls == "conv" else []), generator=gen, dtype=torch.float64).to(dtype)
                 (m(x0) if case["first"] == "forward" else m.inverse(x0))
                 m.use_cache(False)
                 m.train()
@@ -99,7 +102,7 @@ def run_case(case):
                 m.bias.copy_(torch.randn(f, generator=gen, dtype=torch.float64).to(dtype))
         if case["state"] == "sgd":
             opt = torch.optim.SGD(m.parameters(), lr=0.3)
-            x = torch.randn(4, f, generator=gen, dtype=torch.float64).to(dtype)
+            x = torch.randn([4, f] + ([2, 2] if cls == "conv" else []), generator=gen, dtype=torch.float64).to(dtype)
             y, ld = m(x)
             (y.pow(2).mean() - ld.mean()).backward()
             opt.step()
@@ -150,6 +153,34 @@ def run_case(case):
                 if float(ld.abs().max()) != 0 or float(ldi.abs().max()) != 0:
                     res.fail("logdet", site, "orthogonal transform reports log-det %r" % ld.tolist())
                 res.nontrivial = not np.allclose(M, np.diag(np.diag(M)))
+                return res
+            if cls == "conv":
+                # the LU accessors describe the per-pixel map applied AFTER the fixed channel permutation:
+                # y[:, :, i, j] = W x[:, perm, i, j] + b, log-det = H*W*log|det W|; inverse undoes exactly that
+                hw = [[2, 2], [1, 3], [3, 2]][case["seed"] % 3]
+                xi_ = torch.randn([3, f] + hw, generator=gen, dtype=torch.float64).to(dtype)
+                Wc, bc = m.weight().double().numpy(), m.bias.double().numpy()
+                perm = m.permutation._permutation.numpy()
+                condc = np.linalg.cond(Wc)
+                if not np.isfinite(condc) or condc > (1e8 if case["precise"] else 1e3):
+                    res.inconclusive += 1
+                    return res
+                ladc = np.linalg.slogdet(Wc)[1]
+                xn_ = xi_.double().numpy()
+                ref = np.einsum("oc,bchw->bohw", Wc, xn_[:, perm]) + bc[None, :, None, None]
+                res.nontrivial = not np.allclose(Wc, np.diag(np.diag(Wc))) or not np.array_equal(perm, np.arange(f))
+                for d in ([case["first"], "inverse" if case["first"] == "forward" else "forward"]):
+                    if d == "forward":
+                        y_, ld_ = m(xi_)
+                        if not (close(y_.double().numpy(), ref, 1 + np.abs(ref).max(), "conv forward vs W x[perm] + b", condc) and
+                                close(ld_.double().numpy(), np.full(3, hw[0] * hw[1] * ladc), 1 + abs(ladc) * hw[0] * hw[1], "conv forward log-det vs H*W*slogdet", condc)):
+                            return res
+                    else:
+                        yin_ = torch.tensor(ref).to(dtype)
+                        xb_, ldi_ = m.inverse(yin_)
+                        if not (close(xb_.double().numpy(), xn_, 1 + np.abs(xn_).max(), "conv inverse(W x[perm] + b) vs x", condc * (1 if case["precise"] else 10)) and
+                                close(ldi_.double().numpy(), np.full(3, -hw[0] * hw[1] * ladc), 1 + abs(ladc) * hw[0] * hw[1], "conv inverse log-det", condc)):
+                            return res
                 return res
             order = [case["first"], "inverse" if case["first"] == "forward" else "forward"]
             W = m.weight().double().numpy()
